@@ -10,7 +10,7 @@
 (V) every recorded execution (allocator events per API call + return code + "caller objects unchanged") is
     validated by TraceLifecycle, which reuses Lifecycle's actions and re-checks the contract invariants.
 """
-import json, os, subprocess, sys, hashlib, concurrent.futures
+import json, os, re, subprocess, sys, hashlib, concurrent.futures
 from lib import tlc, build, tracev
 from lib.ctx import MachineryError
 from checks.c11 import plans_from_tlc
@@ -25,10 +25,25 @@ BUGS = {"no_next_end": "lzma_next_coder_init does not free the coder of another 
 PAR = 4
 
 
+def crash_key(log, scn_id):
+    """Stable key of a sanitizer abort: error class + function (ASan SUMMARY line / UBSan location)."""
+    m = re.search(r"SUMMARY: \w+Sanitizer: (\S+) \S*?([\w.]+):\d+ in (\w+)", log)
+    if m:
+        return "crash:%s:%s" % (m.group(1), m.group(3))
+    m = re.search(r"([\w.]+\.[ch]):(\d+):\d+: runtime error: ([\w -]{1,40})", log)
+    if m:
+        return "crash:ubsan:%s:%s" % (m.group(1), m.group(3).strip().replace(" ", "-"))
+    m = re.search(r"([\w.]+\.[ch]):(\d+): (\w+): Assertion", log)
+    if m:
+        return "crash:assert:%s:%s" % (m.group(1), m.group(3))
+    return "crash:" + str(scn_id)
+
+
 def label(ops):
     out = []
     for o in ops:
-        a = [x for x in (o.get("k"), o.get("tgt"), o.get("src"), o.get("fn")) if x and x != "none"]
+        a = [x for x in (o.get("k"), o.get("tgt"), o.get("src"), o.get("fn"), "empty" if o.get("empty") else None)
+             if x and x != "none"]
         out.append(o["op"] + ("(%s)" % ",".join(a) if a else ""))
     return ";".join(out)
 
@@ -80,7 +95,7 @@ def run_batch(ctx, so, scns, tag, max_single, n_subsets, timeout):
             ctx.violation("hang:" + str(started), "scenario did not finish within %ds (after %d completed runs)" % (timeout, len(cur)),
                           dict(kind="scenario", scenario=[s for s in todo if s["id"] == started]))
         elif sanitizer:
-            ctx.violation("crash:" + str(started), "the library crashed / a sanitizer aborted while replaying the scenario "
+            _Dedup(ctx, SEEN).violation(crash_key(log, started), "the library crashed / a sanitizer aborted while replaying the scenario "
                           "(after %d completed runs of it):\n%s" % (len(cur), log[-2500:]),
                           dict(kind="scenario", scenario=[s for s in todo if s["id"] == started], completed_runs=len(cur)))
         else:
@@ -91,13 +106,29 @@ def run_batch(ctx, so, scns, tag, max_single, n_subsets, timeout):
     return runs
 
 
+class _Dedup:
+    """ctx proxy for tracev.validate: one violation per key (a single defect rejects many executions)."""
+    def __init__(self, ctx, seen):
+        self._ctx = ctx; self._seen = seen
+    def __getattr__(self, a):
+        return getattr(self._ctx, a)
+    def violation(self, key, detail, replay_obj=None):
+        if key in self._seen:
+            self._seen[key] += 1
+            return False
+        self._seen[key] = 1
+        return self._ctx.violation(key, detail, replay_obj)
+
+SEEN = {}
+
 def validate_runs(ctx, runs, tag):
     hists = [("%s|fail=%s" % (r["sid"], ",".join(map(str, r["fail"])) or "-"), r["events"]) for r in runs]
     def keyfn(lab, e, i):
         if e.get("e") == "Done":
             return "trace:leak-at-end:" + lab.split("|")[0][:80]
         return "trace:%s:%s:%s" % (e.get("fn"), e.get("ret"), "unchanged" if e.get("same", True) else "caller-object-modified")
-    return tracev.validate(ctx, "TraceLifecycle", hists, keyfn, name="TraceLifecycle." + tag, timeout=1200, max_rounds=5)
+    return tracev.validate(_Dedup(ctx, SEEN), "TraceLifecycle", hists, keyfn, name="TraceLifecycle." + tag, timeout=1200,
+                           max_rounds=5)
 
 
 def run(ctx):
@@ -143,19 +174,34 @@ def run(ctx):
     if sim.error:
         raise MachineryError("GenLifecycle simulation: " + sim.error)
     deep = [p for p in plans_from_tlc(sim.out) if len(p) >= 3]
+    fam = {}
+    for name, cfg in (("idx", "GenLifecycleIdx.cfg"), ("flt", "GenLifecycleFlt.cfg")):
+        gf = tlc.run("GenLifecycle", cfg=cfg, workers=1, timeout=600)
+        ctx.add_tlc("GenLifecycle(%s)" % name, gf, exhaustive=True)
+        fam[name] = [p for p in plans_from_tlc(gf.out) if len(p) >= 3]
+    simh = tlc.run("GenLifecycle", cfg="GenLifecycleHnd.cfg", workers=1, timeout=600, simulate=25 if quick else 1500, depth=4,
+                   seed=ctx.seed + 1)
+    if simh.error:
+        raise MachineryError("GenLifecycle handle-family simulation: " + simh.error)
+    deep += [p for p in plans_from_tlc(simh.out) if len(p) >= 3]
     one = [p for p in plans if len(p) == 1]
     two = [p for p in plans if len(p) == 2]
     if quick:
-        must = [p for p in two if p[0]["op"] == "Init" and p[1]["op"] in ("CodeAll",)]
+        must = [p for p in two if p[0]["op"] == "Init" and p[1]["op"] in ("CodeAll", "CodeSome")]
         rest = [p for p in two if p not in must]
         # handle-centred histories are the interesting half
         hrest = [p for p in rest if p[0]["op"] == "Init"]
         orest = [p for p in rest if p[0]["op"] != "Init"]
-        chosen = one + must + ctx.rng.sample(hrest, 110) + ctx.rng.sample(orest, 70) + deep[:40]
+        idx_end = [p for p in fam["idx"] if p[-1]["op"] in ("IndexCat", "IndexDup")]
+        chosen = one + must + ctx.rng.sample(hrest, 80) + ctx.rng.sample(orest, 50) + deep[:80] \
+            + ctx.rng.sample(idx_end, 60) + ctx.rng.sample(fam["flt"], 30)
         max_single, n_subsets = 60, 2
     else:
-        chosen = one + two + deep
+        chosen = one + two + deep + fam["idx"] + fam["flt"]
         max_single, n_subsets = 150, 6
+    # always present (both plans are in the TLC-generated set; here the decoded Index is forced to have no Records)
+    chosen = chosen + [[dict(op="IndexBufferDecode", tgt="I1", empty=True), dict(op="IndexAppend", tgt="I1")],
+                       [dict(op="IndexBufferDecode", tgt="I1", empty=True), dict(op="IndexDup", tgt="I2", src="I1")]]
     seen = set(); scns = []
     for p in chosen:
         s = scenario(p)
@@ -187,6 +233,8 @@ def run(ctx):
     smp = [r_ for r_ in allruns if r_["fail"] and len(r_["events"]) >= 5]
     if smp:
         ctx.sample(dict(kind="recorded_execution", scenario=smp[0]["sid"], failing_allocations=smp[0]["fail"], events=smp[0]["events"]))
+    if SEEN:
+        ctx.extra["rejections_per_key"] = dict(SEEN)
     ctx.log("replayed %d scenarios: %d executions (%d with injected failures), %d API calls validated, rejected=%d"
             % (len(scns), len(allruns), nfault, calls, rejected))
     ctx.assumptions += ["allocations made by worker threads between two API calls are attributed to the handle (Async event)",
